@@ -532,7 +532,7 @@ func TestCheck(t *testing.T) {
 	rep.Require("hook_events", 1000)
 	rep.Require("window_recv_then_push_before_refill", 3)
 	ctx := context.Background()
-	n := int64(cfg.Pick(150, 1200))
+	n := int64(cfg.Pick(600, 1200))
 	rep.Cases(n, func(idx int64, rng *mon.Rand) {
 		mode := gspec.Mode(idx % 3)
 		spec := gspec.Gen(rng, genOpts(rng, cfg, mode))
